@@ -233,6 +233,24 @@ pub fn malform(r: &mut Rng, e: &mut EchoReq) -> Option<String> {
             e.path_segs[idx] = bad.to_string();
             Some(format!("narrow path segment {idx} = {bad}"))
         }
+        "echo_page" => {
+            let b64 = |t: &str| crate::sha1::base64_url(t.as_bytes());
+            let (key, val, why): (&str, String, &str) = match r.below(10) {
+                0 => ("page_token", "%25%25%25".into(), "page token is not base64"),
+                1 => ("page_token", "abc".into(), "page token is truncated base64"),
+                2 => ("page_token", b64("{\"v\":\"v1\",\"page_start\":{\"n\":1"), "page token holds truncated JSON"),
+                3 => ("page_token", b64("{\"v\":\"v1\",\"page_start\":{\"n\":1,\"s\":\"x\"}}}"), "page token holds JSON followed by trailing garbage"),
+                4 => ("page_token", b64("{\"v\":\"v1\",\"page_start\":{\"n\":1,\"s\":\"x\"}}{\"v\":\"v1\"}"), "page token holds two documents"),
+                5 => ("page_token", b64("{\"v\":\"v2\",\"page_start\":{\"n\":1,\"s\":\"x\"}}"), "page token of an unknown version"),
+                6 => ("page_token", b64("{\"v\":\"v1\"}"), "page token without page_start"),
+                7 => ("page_token", b64("{\"v\":\"v1\",\"page_start\":{\"n\":\"one\",\"s\":\"x\"}}"), "page token with ill-typed selector"),
+                8 => ("limit", "0".into(), "limit=0"),
+                _ => ("limit", "ten".into(), "limit=ten"),
+            };
+            e.query.retain(|(k, _)| k != key && !(key == "page_token" && k == "tag"));
+            e.query.push((key.to_string(), val));
+            Some(why.into())
+        }
         "echo_mp" => {
             match r.below(3) {
                 0 => {
@@ -303,7 +321,8 @@ pub fn gen_random(seed: u64, idx: u64) -> Plan {
         for j in 0..nreq {
             let steps = r.range(0, 1) as u32;
             let step_ms = *r.pick(&[0u64, 1, 10]);
-            let mut e = match r.below(8) {
+            let mut e = match r.below(9) {
+                8 => gen_page(&mut r, nonce, steps, step_ms),
                 0 | 1 | 2 | 3 => gen_typed(&mut r, nonce, steps, step_ms),
                 4 | 5 => gen_form(&mut r, nonce, steps, step_ms),
                 6 => gen_narrow(&mut r, nonce, steps, step_ms),
